@@ -103,7 +103,7 @@ PROPS = {
                  "known by construction; hover is asked at the declaration of every parameter, let variable, pattern variable (let, case with 1-2 subjects, list/tuple/constructor/string-prefix/as), "
                  "use binder, lambda parameter and function, and the displayed type must equal the constructed one. Ten polymorphic helpers with hand-written most-general signatures (incl. a mutually "
                  "recursive pair) are spliced into every module in random order with randomly chosen binder names (sometimes spelled like a top-level function) and compared up to bijective renaming "
-                 "of type variables. Non-trivial = every workspace (all contain generic instantiation); distinct by FNV-1a of the expected types; evaluations = hover comparisons."),
+                 "of type variables. Non-trivial = every workspace (all contain generic instantiation); distinct by FNV-1a of the expected types; evaluations = hover comparisons. Every module has an alias Num<m> = Int through which half of the Ints inside constructor fields and alias bodies are spelled (an alias met inside another definition, seen from importing modules, with names of the defining module after it)."),
         "assumptions": [
             "well-typed Gleam only, and only constructs whose PRINCIPAL type is the constructed type: no empty list literals, no lone Ok/Error (both sides pinned by a two-armed case or a helper), no constructor that leaves a type parameter open",
             "unlabelled parameters/fields precede labelled ones; `..` in constructor patterns only when a field is actually omitted (both are errors in Gleam otherwise)",
@@ -128,7 +128,7 @@ PROPS = {
                  "list elements, arguments, statements, clauses, alternatives ...) with 12 000 links and a block of 12 000 `use` statements (they nest for every recursive walk although the parser never recursed; quick tier: 4 offsets without the usage-search queries). Queries: hover, goto, references, highlight, completion (plain, '.', '@'), signature help, prepare-rename, rename (valid lower, valid upper, invalid), "
                  "semantic highlight (full, 4 ranges), diagnostics, syntax tree - on every file including gleam.toml, at every token boundary, offset 0, EOF and around/inside every multi-byte character "
                  "(sampled down to 400 offsets per file for long files). Each runs on a 2 MiB stack under a panic hook; the workspace is journaled first so a process death is attributable. "
-                 "A workspace is non-trivial if it has >=1 damage op or >=2 modules; distinct by FNV-1a of its files."),
+                 "A workspace is non-trivial if it has >=1 damage op or >=2 modules; distinct by FNV-1a of its files. Long constructs also run ACROSS definitions: 3000 functions each calling the next (and each calling the previous, with the caller of the last one first in the file), 3000 aliases each naming the next, 3000 constants, 3000 custom types each wrapping the next - whatever is computed per definition by asking for the one it mentions nests once per link."),
         "assumptions": [
             "stack 2 MiB (tokio blocking pool); per-query bounded progress: a query above 20 s is a hang suspect, the shard watchdog makes the rest inconclusive",
             "Cancelled cannot occur (single-threaded sweeps); it is counted if it does",
@@ -231,7 +231,7 @@ PROPS = {
         "rule": ("generated workspaces with up to 2 placeholder identifiers per function at expression positions; the generator records the set of value names visible there (locals innermost-first, module functions/constants/"
                  "constructors, unqualified imports under their local names) and the module accessors. completions(cursor at end of placeholder) must offer exactly that set (keywords/snippets and the five built-in constructors ignored), "
                  "each item replacing exactly the placeholder, and after accepting an item goto on the inserted name must reach the recorded declaration (fresh host). At every qualified use `m.x` completion with trigger '.' "
-                 "must offer exactly m's public functions and constructors of public non-opaque types. non-trivial = hole with >= 3 visible names; distinct by (workspace seed, hole). One workspace in three is split into two local packages (`app` depends on `lib` by path; imports only point from app to lib), so cross-package references, renames and completions are exercised. Second engine (m_types): the `value.` clause on typed programs - for parameters, let variables and clause variables of every custom type of the workspace (and of Int, String, List, tuple, function types) completion after `v.` must offer exactly the labelled fields common to all variants (nothing for non-record types). Each offered name is also compared by KIND with the binding the generator's scoping picks at the hole (a shadowed spelling must be offered as the innermost binding: any local or parameter = kind Param, function = Function, constructor = Variant or - constructors with fields are rendered as functions - Function; constants and module accessors are not judged by kind)."),
+                 "must offer exactly m's public functions and constructors of public non-opaque types. non-trivial = hole with >= 3 visible names; distinct by (workspace seed, hole). One workspace in three is split into two local packages (`app` depends on `lib` by path; imports only point from app to lib), so cross-package references, renames and completions are exercised. Second engine (m_types): the `value.` clause on typed programs - for parameters, let variables and clause variables of every custom type of the workspace (and of Int, String, List, tuple, function types) completion after `v.` must offer exactly the labelled fields common to all variants (nothing for non-record types). Each offered name is also compared by KIND with the binding the generator's scoping picks at the hole (a shadowed spelling must be offered as the innermost binding: any local or parameter = kind Param, function = Function, constructor = Variant or - constructors with fields are rendered as functions - Function; constants and module accessors are not judged by kind). Accept-and-resolve also runs for module accessors: the item of kind Module is accepted, a public function of that module appended (`<inserted>.<fn>`), and goto on the inserted accessor must reach the module's file - so an aliased import must insert its alias."),
         "assumptions": [
             "expected sets come from the generator's own scoping, never from glas",
             "`value.` field completion is checked on typed programs only (second engine m_types), because scoped-mode programs may be ill-typed",
@@ -289,7 +289,7 @@ PROPS = {
         "death_is_violation": False,
         "rule": ("in-process part: exhaustively all documents of <=5 [thorough 6] symbols over {a, LF, CRLF, 2-, 3-, 4-byte} x all valid ordered position pairs (UTF-16 columns) x 7 replacement strings (empty, a, LF, CRLF, 2-byte, 4-byte, a CRLF 2-byte) "
                  "through the primitive sequence of on_did_change (Vfs::set_path_content, convert::from_range, Vfs::change_file_content); seeded sequences of 2-20 edits with full replacements on documents up to 2 KiB. "
-                 "After every edit the server's text must equal the model client document without CR and the stored line map must equal one built from scratch. Non-trivial = document with a multi-byte character or CRLF; distinct by FNV-1a of (doc, edit)."),
+                 "After every edit the server's text must equal the model client document without CR and the stored line map must equal one built from scratch. Non-trivial = document with a multi-byte character or CRLF; distinct by FNV-1a of (doc, edit). In the black-box engine one history in three comes from an editor that still sends the deprecated rangeLength with every ranged change (UTF-16 units of the replaced text, carriage returns included): `range` stays authoritative."),
         "exhaustive_scope": "single edits over the small-document space (in-process part)",
         "assumptions": [
             "the per-notification loop of Server::on_did_change itself (several changes per notification, line map re-read between changes, JSON layer) is exercised by the black-box engine m_lsp (C13 second half, see evidence counters prefixed bb_)",
@@ -307,7 +307,7 @@ PROPS = {
         "rule": ("message sequences of 5-60 LSP notifications/requests over 1-3 documents against a fresh real `glas --stdio` process per sequence (release binary built from /repo): didOpen (project files, nested new file, file outside any project, "
                  "gleam.toml, untitled:/git: URIs, duplicates, re-open after close), didChange (valid; line beyond EOF by one and far; column beyond line by one and far; u32::MAX; inside a surrogate pair; start>end; 2-4 changes with an invalid one among them; "
                  "full replacement; closed or never-opened URI), didClose, didSave, didChangeWatchedFiles (existing, deleted, directory, FIFO, toml), every request kind with valid/invalid positions and ranges, rename with good and bad names. "
-                 "Half the sequences are sent stepwise (a round trip after every message attributes a death), half pipelined. Non-trivial = at least one hostile message; distinct by FNV-1a of the sequence. One sequence in six uses documents whose paths are nested in one another (a document path that is a proper ancestor of another document's path; an existing directory opened as a document)."),
+                 "Half the sequences are sent stepwise (a round trip after every message attributes a death), half pipelined. Non-trivial = at least one hostile message; distinct by FNV-1a of the sequence. One sequence in six uses documents whose paths are nested in one another (a document path that is a proper ancestor of another document's path; an existing directory opened as a document). Every sequence starts with an initialize from a client of its own kind (position encodings offered, token types, work-done progress, workspace/configuration and dynamic watched-file registration - the server's requests are answered -, clientInfo Neovim / VS Code / none). One valid ranged change in three carries the deprecated rangeLength (as an editor keeping CRLF counts it, or a wrong number on invalid ranges); one watched-file event in five has a change type outside the protocol's 1..3 (0, 4, 7, 2147483647) - ignoring, reloading or dropping the file are all accepted, dying is not."),
         "assumptions": [
             "oracle: process alive at the end; every request id answered exactly once (barrier 25 s, then deadlock classification by flat CPU + unanswered probe, else inconclusive); every document's final server text (glas/syntaxTree) lies in the model's acceptable set: "
             "exactly the model text if all edits were valid; after an invalid edit any of forgotten / edit dropped / LSP-spec clamped application",
@@ -326,7 +326,7 @@ PROPS = {
                  "file emptied, file added (roots re-set), dependency edge added/removed (package graph re-set alone), roots+graph replaced - each preceded by ~40 arbitrary queries on the long-lived host. After EVERY step a probe set "
                  "(diagnostics, syntax tree, full highlight per file; hover, goto, references, highlight, completion plain and '.', signature help, prepare-rename, rename at 12 [30] seeded token boundaries per file) is asked of the long-lived host, "
                  "of a fresh host, and of a second fresh host in shuffled order; normal forms must be equal. Every 4th state is additionally re-analysed in a separate process (different HashMap keys) and the per-probe hashes compared. "
-                 "evaluations = probe answers; non-trivial = history with >= 2 changes that completed; distinct by case seed. One history in eighty starts from a chain of 140-147 modules (more than the parse cache's LRU capacity of 128), each calling the previous one, so syntax trees are evicted and re-parsed between queries. One file edit in four carries several successive texts of the file in a single Change (the last one wins). From step 12 on, edits also rewire imports (`import sibling`, `import sibling.{name}` added and removed), so import cycles of length 1-3 are created and broken while results memoised in the other state are still in the database."),
+                 "evaluations = probe answers; non-trivial = history with >= 2 changes that completed; distinct by case seed. One history in eighty starts from a chain of 140-147 modules (more than the parse cache's LRU capacity of 128), each calling the previous one, so syntax trees are evicted and re-parsed between queries. One file edit in four carries several successive texts of the file in a single Change (the last one wins). From step 12 on, edits also rewire imports (`import sibling`, `import sibling.{name}` added and removed), so import cycles of length 1-3 are created and broken while results memoised in the other state are still in the database; the imported name is a public function the sibling really has (two times in three), half of the time a new function calls through it, and one such step in three adds a second import under the SAME qualifier (`import other as <accessor of the first>`)."),
         "assumptions": [
             "normal form: sequences whose order carries meaning stay sequences; references, highlights, completion items and rename edits are compared as sorted multisets (HashSet iteration order is not part of the answer)",
             "file removal is not part of the statement and is not generated; FileIds are stable across the history and identical in the fresh hosts",
@@ -345,7 +345,7 @@ PROPS = {
         "rule": ("scenarios mirroring the server's ownership: a main thread owns the AnalysisHost, takes snapshots tagged with the version they were taken at, hands them to 1-4 reader threads and applies 1-6 changes with known "
                  "contents (file edits, file added with roots re-set, package-graph-only change); readers sweep 24 seeded queries (hover, goto, references, completion, highlight, diagnostics, signature help, semantic highlight) cyclically "
                  "with seeded sleeps/yields until cancelled. Recorded at the API boundary: (reader, tag, probe, start time, answer | Cancelled | panic). Afterwards every answer is compared with a fresh sequential analysis of the "
-                 "tagged version. evaluations = recorded queries; non-trivial = scenario in which at least one query answered and at least one was cancelled; distinct by the hash of the global completion order of answers (interleaving signature). One edited file in three gets a draft text and the final text in one Change."),
+                 "tagged version. evaluations = recorded queries; non-trivial = scenario in which at least one query answered and at least one was cancelled; distinct by the hash of the global completion order of answers (interleaving signature). One edited file in three gets a draft text and the final text in one Change. 'Never block' is decided as bounded progress: a watchdog thread reports apply-change-blocked:never-returned when an apply_change has not returned after max(60 s, 500 x the time a fresh host needs for the scenario's whole probe set) - readers let go of a snapshot after 2.5 s at the latest and single queries take milliseconds."),
         "assumptions": [
             "(a) an answer must equal the answer of its snapshot's own version (else: answer of a later/earlier version, or a mixture); (b) only Err(Cancelled) may surface, never a panic; "
             "(c) promptness restated: no query that STARTS more than 700 ms after the next change was requested may still return an answer, and apply_change never takes longer than a reader's sweep cap (2.5 s); "
@@ -366,7 +366,7 @@ PROPS = {
         "rule": ("races: 1-2 generated documents (8-24 items each, non-ASCII strings/comments), 2-7 line-structure-changing edits, after the open and after every edit a batch of 1-16 requests (hover, definition, references, documentHighlight, "
                  "completion, rename, prepareRename, semanticTokens/full) aimed at valid positions of the version just sent; the whole byte stream is written without waiting, split at seeded points with seeded micro-pauses, "
                  "to the server built with --features verif and GLAS_VERIF_SCHED seeded delays at its yield points. A sequential reference run (plain binary, every request asked and awaited at EVERY version) gives the per-version answers. "
-                 "evaluations = races; non-trivial = race with at least one answered request; distinct by the hash of the server's own message order (responses and notifications). Request kinds raced: hover, definition, references, documentHighlight, completion, rename, prepareRename, signatureHelp (aimed inside argument lists), semanticTokens full and range, glas/syntaxTree. A didChange notification carries 1-3 content changes (ranged and full mixed); the sequential reference receives the same changes one notification each, so the intermediate texts exist as versions there and an answer computed on one of them is recognised."),
+                 "evaluations = races; non-trivial = race with at least one answered request; distinct by the hash of the server's own message order (responses and notifications). Request kinds raced: hover, definition, references, documentHighlight, completion, rename, prepareRename, signatureHelp (aimed inside argument lists), semanticTokens full and range, glas/syntaxTree. A didChange notification carries 1-3 content changes (ranged and full mixed); the sequential reference receives the same changes one notification each, so the intermediate texts exist as versions there and an answer computed on one of them is recognised. The first case of every shard and one case in 25 is a pile-up burst: a document of 1500-3000 functions, one edit at its top and, in the same write, 70-260 requests (hover, definition, documentHighlight, semanticTokens) that all wait on the one recomputation and so are in flight together; judged: every request answered exactly once within 120 s (else the deadlock classifier), a later probe answered, final text equal."),
         "assumptions": [
             "(a) every request answered exactly once by a 30 s barrier, else deadlock classification (probe unanswered + flat CPU, gdb stacks attached) or inconclusive; (b) a probe after the burst is answered; "
             "(c) a result must equal (normal form) the sequential answer at the version the request was issued against; errors and RequestCancelled are accepted; a result equal to another version's answer or to none is a violation; "
@@ -386,7 +386,7 @@ PROPS = {
                  "transitive-only packages), optionally a `path = \"../pathdep\"` dependency which lists a random subset of the root's registry packages as its own dependencies (the monorepo layout: everything is fetched into the ROOT's build/packages) "
                  "and, one time in three, has a private build/packages/<name> with ANOTHER copy of one of them (other modules), 1-3 modules per package from a pool of 8 names incl. nested directories (equal module names in different packages are common), a test/ module, "
                  "and a free-standing file without gleam.toml; every package's entry module imports 5 module names sampled from the whole tree. A fresh real server per tree; entry modules are opened root-first, dependency-first (a path dependency's file before anything of its owner) or test-module-first, the free-standing file before all of them or only after the import queries (so that nothing re-assembles the package graph in between); the order is part of every signature. textDocument/definition is asked on every qualified use, prepareRename on every resolved one, hover and glas/syntaxTree in the free-standing file. "
-                 "evaluations = trees; distinct by FNV-1a of the tree description. In half of the trees a registry dependency is then removed from the root's gleam.toml on disk and announced through workspace/didChangeWatchedFiles: prepareRename inside the removed package must still be refused (it lives under build/packages) and still be accepted in the root, and the root's imports must follow the new manifest."),
+                 "evaluations = trees; distinct by FNV-1a of the tree description. In half of the trees a registry dependency is then removed from the root's gleam.toml on disk and announced through workspace/didChangeWatchedFiles: prepareRename inside the removed package must still be refused (it lives under build/packages) and still be accepted in the root, and the root's imports must follow the new manifest. One tree in four instead has a dependency that is fetched late: build/packages/latedep (listed in the root's manifest from the start, or added to it only then) is written to disk after the first queries, with or without a didChangeWatchedFiles event; a document inside it is opened and prepareRename / rename on its function must be refused - a package under build/packages is a dependency whenever it arrived."),
         "assumptions": [
             "layout rule (independent model): module name = path below src|test without extension; `import m` from package P may resolve only to a file named m in P or in a package P lists under [dependencies] (registry or path); "
             "if only a transitive or unrelated package has it the answer must be empty; several candidates: any; target URIs are compared after lexical normalisation (path dependencies come back as root/../pathdep/...); "
